@@ -93,7 +93,7 @@ pub struct ResponseHandler<T> { h: Box<dyn FnOnce(T) -> GneissResult<()> + Send 
 //@enum gneiss-mqtt/src/protocol.rs OperationResponse
 //@struct gneiss-mqtt/src/protocol.rs OperationTimeoutRecord
 
-//@struct gneiss-mqtt/src/alias.rs OutboundAliasResolution
+//@struct gneiss-mqtt/src/alias.rs OutboundAliasResolution defaultspec
 //@struct gneiss-mqtt/src/validate.rs OutboundValidationContext
 //@struct gneiss-mqtt/src/validate.rs InboundValidationContext
 //@struct gneiss-mqtt/src/encode.rs EncodingContext noderive=Default
@@ -113,6 +113,32 @@ impl Encoder {
     { unimplemented!() }
 }
 
-//@struct gneiss-mqtt/src/protocol.rs ProtocolState drop=decoder,outbound_alias_resolver,inbound_alias_resolver
+// ---- trusted shim: the Decoder (decode.rs) is opaque inside the engine unit; it is verified on its own in U-codec
+#[verifier::external_body]
+pub struct Decoder { scratch: Vec<u8> }
+impl Decoder {
+    #[verifier::external_body]
+    pub fn reset_for_new_connection(&mut self) { unimplemented!() }
+}
+
+// ---- trusted shim for `RefCell<Box<dyn OutboundAliasResolver>>` (interior mutability + dyn trait: outside Verus).
+// The resolver's effect is invisible to the engine contracts; the resolvers themselves are verified in U-alias.
+#[verifier::external_body]
+pub struct OutboundResolverCell { c: std::cell::RefCell<u8> }
+#[verifier::external_body]
+pub struct OutboundResolverGuard { g: u8 }
+impl OutboundResolverCell {
+    #[verifier::external_body]
+    pub fn borrow_mut(&self) -> (r: OutboundResolverGuard) { unimplemented!() }
+}
+impl OutboundResolverGuard {
+    #[verifier::external_body]
+    pub fn reset_for_new_connection(&mut self, max_aliases: u16) { unimplemented!() }
+    #[verifier::external_body]
+    pub fn resolve_and_apply_topic_alias(&mut self, alias: &Option<u16>, topic: &str) -> (r: OutboundAliasResolution) { unimplemented!() }
+}
+
+//@struct gneiss-mqtt/src/alias.rs InboundAliasResolver
+//@struct gneiss-mqtt/src/protocol.rs ProtocolState retype=outbound_alias_resolver:OutboundResolverCell
 
 } // verus!
